@@ -83,11 +83,12 @@ Theorem C29_bytes_aggregate_refused : forall (B : nat) (t : N) (st : bool) (l : 
 Proof. intros B t st l rest f w HB. now apply stream_aggregate. Qed.
 Print Assumptions C29_bytes_aggregate_refused.
 
-(** failure of the INPUT at every byte: every strict prefix of a counted string reply (cut inside the length
-    line, inside the payload or inside the final CRLF, or empty) is reported unclean, with an error -- the
-    connection must not be recycled *)
+(** failure of the INPUT at every byte, combined with ANY writer (also one that has already failed part-way
+    through the payload): every strict prefix of a counted string reply (cut inside the length line, inside
+    the payload or inside the final CRLF, or empty) is reported unclean, with an error -- a connection on which
+    the rest of the reply is still outstanding must not be recycled *)
 Theorem C29_bytes_truncated_unclean : forall (B : nat) (t : N) (s : bytes) (k f : nat) (w : wstate),
-  (32 <= B)%nat -> (t = tBlobString \/ t = tVerbatim) -> (zlen s + 2 < two63)%Z -> unlimited w ->
+  (32 <= B)%nat -> (t = tBlobString \/ t = tVerbatim) -> (zlen s + 2 < two63)%Z ->
   (k < List.length (enc (VBlob t s)))%nat ->
   unclean (fst (fst (runw B (stream_to (S f)) (firstn k (enc (VBlob t s))) w))).
 Proof. intros B t s k f w HB. now apply stream_counted_trunc. Qed.
